@@ -422,7 +422,10 @@ def check_hard(acc, rng):
             touching = abs(ss - rmin * rmin) <= 1e-9 * ss
             if tangent or touching:
                 acc.count("ill_conditioned_totality_only")
-                if t != t or t < -1e-9:
+                # a pair generated with a (tolerated) overlap d^2 - |s|^2 <= 1e-13 made contact (d^2 - |s|^2) / (2 v.s)
+                # ago, which a nearly tangential approach amplifies: that much negative time is the exact answer
+                ago = max(0.0, rmin * rmin - ss) / max(vs, 1e-300) if vs > 0 else 0.0
+                if t != t or t < -1e-9 - 2.0 * ago:
                     acc.violation(f"C02:hard-{kind}-not-a-time", f"v={v}, s={s} -> {t!r}", wit)
                 elif kind == "sphere" and touching and vs > 0.1 * math.sqrt(vv * ss):
                     # in contact (possibly rounded from below, within the potential's own tolerance) and clearly
